@@ -214,7 +214,7 @@ def run(ctx: Ctx):
     if ctx.quick:
         consts = {"PlBytes": "{0, 126}", "MaxPl": "2", "Codes": "{2, 11, 81}"}
     else:
-        consts = {"PlBytes": "{0, 126, 17, 255}", "MaxPl": "2", "Codes": "0 .. 255"}
+        consts = {"PlBytes": "{0, 126, 17, 255}", "MaxPl": "2", "Codes": "{" + ", ".join(map(str, range(256))) + "}"}
     ctx.model_check("AshCodecMC", "MC_AshCodec", constants=consts,
                     invariants=("RoundTrip", "WireRoundTrip", "NoReservedOnWire", "ClassOk", "BitFlipsRejected"),
                     coverage=False, gc="serial")
